@@ -152,6 +152,9 @@ type VC struct {
 	nonNilGlobs []string
 	ldCache     map[string][]string
 	atCallSeen  map[string]int
+	atInstr     ssa.Instruction // the call an at-call assertion is being evaluated at
+	closureArgs map[ssa.Value]closureRef
+	bindVC      *VC // where the bindings of the closure being inlined are evaluated
 	logSkip     map[ssa.Instruction]bool
 	logSkipFn   map[*ssa.Function]bool
 	factGuard   string // path condition under which facts derived during a contract evaluation hold
@@ -804,13 +807,20 @@ func (vc *VC) ghostHeap(h *Heap, name string) (string, *GhostDecl, bool) {
 
 // havocAll replaces every heap component by a fresh one (objects above the old allocation
 // pointer may have been created).
-func (vc *VC) havocAll(h *Heap, why string) {
+func (vc *VC) havocAll(h *Heap, why string, keepGhost ...string) {
 	vc.note("full heap havoc: " + why)
 	old := h.Alloc
 	for s := Sort(0); s < nSorts; s++ {
 		h.H[s] = vc.newHeapConst(s)
 	}
+	keep := map[string]bool{}
+	for _, g := range keepGhost {
+		keep["G_"+g] = true
+	}
 	for _, k := range sortedKeys(h.M) {
+		if keep[k] {
+			continue
+		}
 		h.M[k] = vc.declare(vc.fresh(k), vc.mapHeapSort(k))
 	}
 	h.Alloc = vc.declare(vc.fresh("alloc"), "Int")
